@@ -48,6 +48,7 @@ func init() {
 
 // RegisterEntityAccessor add/overrides the ReaderWriter for encoding content with this MIME type.
 func RegisterEntityAccessor(mime string, erw EntityReaderWriter) {
+	simLock("RegisterEntityAccessor", entityAccessRegistry.protection, true)
 	entityAccessRegistry.protection.Lock()
 	defer entityAccessRegistry.protection.Unlock()
 	entityAccessRegistry.accessors[mime] = erw
@@ -67,6 +68,7 @@ func NewEntityAccessorXML(contentType string) EntityReaderWriter {
 
 // accessorAt returns the registered ReaderWriter for this MIME type.
 func (r *entityReaderWriters) accessorAt(mime string) (EntityReaderWriter, bool) {
+	simLock("entityReaderWriters.accessorAt", r.protection, false)
 	r.protection.RLock()
 	defer r.protection.RUnlock()
 	er, ok := r.accessors[mime]
